@@ -261,14 +261,38 @@ def failure(sig, what, case):
     return {"sig": sig, "what": what, "case": case}
 
 
+REPLAY_STOP = None  # set by the worker when a failing call is re-created by re-running its shard's call sequence
+CURRENT = None
+
+
+class StopShard(BaseException):
+    pass
+
+
 class ShardResult:
     def __init__(self):
+        self.callseq = None
+        self.ncall = 0
         self.evaluations = 0
         self.nontrivial = set()
         self.failures = []
         self.samples = []
         self.stats = {}
         self.sets = {}
+
+    def begin(self, spec, tier):
+        """Declare that this shard is a deterministic sequence of calls into the code under test. Every failure then
+        records its position in that sequence, so that a failure which depends on earlier calls in the same process
+        (caches, leaked state) can be re-created by re-running the sequence up to that call."""
+        global CURRENT
+        self.callseq = {"spec": spec, "tier": tier}
+        CURRENT = self
+        return self
+
+    def next_call(self):
+        self.ncall += 1
+        if REPLAY_STOP is not None and self.ncall > REPLAY_STOP:
+            raise StopShard()
 
     def count(self, key, n=1):
         self.stats[key] = self.stats.get(key, 0) + n
@@ -283,6 +307,12 @@ class ShardResult:
         return sum(1 for f in self.failures if f["sig"] == sig) < keep_per_sig
 
     def fail(self, sig, what, case, keep_per_sig=3):
+        if self.callseq is not None:
+            case = dict(case, call_sequence=dict(self.callseq, index=self.ncall))
+        if REPLAY_STOP is not None:
+            if self.callseq is None or self.ncall == REPLAY_STOP:
+                self.failures.append(failure(sig, what, case))
+            return
         n = sum(1 for f in self.failures if f["sig"] == sig)
         self.count("failures:" + sig)
         if n < keep_per_sig:
